@@ -2,7 +2,7 @@
    Only statements, closed by [exact], with Print Assumptions beneath each. *)
 From BT Require Import Base.Util Base.LE Base.Float Model.RTree Model.BBIFile Model.BigWigWrite Model.BBIRead
   Proofs.RTreeAbs Proofs.RTreeCodec Spec.FormatEmit Spec.FormatWf Model.ReadBed_C10
-  Proofs.C10Codec Proofs.C10Search Proofs.C10Sections Proofs.C10ChromTree.
+  Proofs.C10Codec Proofs.C10Search Proofs.C10Sections Proofs.C10ChromTree Proofs.C10EmitBase Proofs.C10EmitQuery.
 Local Open Scope N_scope.
 
 (* ---- R-tree search on any well-formed node store -------------------------------------------
@@ -90,3 +90,92 @@ Theorem C10_chrom_tree : forall (K : Type) (get : K -> option (cgnode K)) (off :
   forall fuel, (h <= fuel)%nat -> read_chrom_block fuel big bs key (off k) = Ok l.
 Proof. intros K get off big bs key H. exact (chrom_walk get off big bs key H). Qed.
 Print Assumptions C10_chrom_tree.
+
+(* ---- the whole file ------------------------------------------------------------------------
+   [emit cmp L X] is the independent encoder (Spec/FormatEmit.v); [wf_b] the decidable
+   well-formedness of the (layout, content) pair (Spec/FormatWf.v); [cmp]/[infl] any compressor
+   that round-trips.  Reading the emitted bytes with the reader models (Model/BBIRead.v,
+   Model/ReadBed_C10.v) succeeds, and EVERY query -- chromosome table, summary, interval (bigWig
+   values or bigBed entries), per-base values, zoom records of any level -- is answered with what
+   the CONTENT says (spec_answer never looks at the layout): for either byte order, compressed or
+   not, any mix of section types, any chromosome-tree and R-tree shapes and node placements, any
+   order of the pieces of the file and gaps between them, with or without a total summary.
+   (Per-base values are a bigWig query; on a bigBed it is not asked.) *)
+Theorem C10_reads_emit : forall (cmp infl : list N -> list N) (L : layout) (X : content),
+  (forall b, infl (cmp b) = b) -> wf_b cmp L X = true ->
+  exists i, read_info (emit cmp L X) = Ok i /\
+    forall q, (match q with QValues _ _ _ => x_bigwig X = true | _ => True end) ->
+      read_answer infl (emit cmp L X) i q = spec_answer X q.
+Proof.
+  intros cmp infl L X Hinfl Hwf. exists (exp_info cmp L X). exact (reads_emit cmp infl Hinfl L X Hwf).
+Qed.
+Print Assumptions C10_reads_emit.
+
+(* ---- non-vacuity: a concrete big-endian file with 2-level trees placed out of order ----------- *)
+Definition idc (l : list N) : list N := l.
+Definition mkv (s e b : N) : value := {| v_start := s; v_end := e; v_bits := b |}.
+Definition ex_X : content :=
+  {| x_bigwig := true;
+     x_chroms := [ {| ci_name := [99; 104; 114; 49]; ci_id := 0; ci_len := 1000 |};
+                   {| ci_name := [99; 104; 114; 50]; ci_id := 1; ci_len := 500 |} ];
+     x_vals := [ (0, mkv 10 20 1065353216); (0, mkv 20 30 1073741824);      (* a fixed-step section *)
+                 (0, mkv 100 105 1077936128); (0, mkv 200 205 1082130432);  (* a variable-step section *)
+                 (1, mkv 5 9 1084227584) ];                                  (* a bedGraph section *)
+     x_beds := [];
+     x_summary := Some {| sr_bases := 34; sr_min := 4607182418800017408; sr_max := 4617315517961601024;
+                          sr_sum := 4634204016564240384; sr_sumsq := 4641240890982006784 |};
+     x_zooms := [ (10, [ {| zr_chrom := 0; zr_start := 10; zr_end := 20; zr_valid := 10; zr_min := 1065353216; zr_max := 1065353216; zr_sum := 1092616192; zr_sumsq := 1092616192 |};
+                         {| zr_chrom := 0; zr_start := 20; zr_end := 30; zr_valid := 10; zr_min := 1073741824; zr_max := 1073741824; zr_sum := 1101004800; zr_sumsq := 1109393408 |};
+                         {| zr_chrom := 1; zr_start := 0; zr_end := 10; zr_valid := 4; zr_min := 1084227584; zr_max := 1084227584; zr_sum := 1101004800; zr_sumsq := 1120403456 |} ]) ];
+     x_field_count := 0; x_defined_fields := 0 |}.
+Definition ex_L : layout :=
+  {| l_big := true; l_compress := false; l_version := 4; l_fill := 170;
+     l_secs := [(2%nat, 3); (2%nat, 2); (1%nat, 1)];
+     l_zsecs := [[2%nat; 1%nat]];
+     l_ckey := 5; l_cblock := 1;
+     l_cnodes := [IInner [2%nat; 1%nat]; ILeaf 1 1; ILeaf 0 1];            (* 2-level chromosome tree *)
+     l_rblock := 2;
+     l_trees := [ [IInner [2%nat; 1%nat]; ILeaf 2 1; ILeaf 0 2];           (* main index: root, its 2nd child, its 1st child *)
+                  [IInner [1%nat; 2%nat]; ILeaf 0 1; ILeaf 1 1] ];
+     l_asql := None; l_extra := [[1; 2; 3]];
+     l_order := [ (PNode 0 1, 0); (PChrom 2, 3); (PBlock 0 2, 0); (PSummary, 1); (PNode 1 2, 0); (PNode 0 0, 2);
+                  (PBlock 0 0, 0); (PExtra 0, 0); (PChrom 0, 0); (PZCount 0, 0); (PBlock 1 1, 5); (PNode 1 0, 0);
+                  (PBlock 0 1, 0); (PCount, 0); (PChrom 1, 0); (PBlock 1 0, 0); (PNode 1 1, 0); (PNode 0 2, 0) ] |}.
+Definition ex_bytes : list N := Eval vm_compute in emit idc ex_L ex_X.
+
+Example C10_example_wf : (forall b, idc (idc b) = b) /\ wf_b idc ex_L ex_X = true /\ length ex_bytes = 830%nat.
+Proof. split; [reflexivity|]. split; vm_compute; reflexivity. Qed.
+(* ... and the conclusion computes: chr1 15..101 cuts the fixed-step and the variable-step section *)
+Example C10_example_read :
+  exists i, read_info ex_bytes = Ok i /\ i_chroms i = x_chroms ex_X /\
+    read_answer idc ex_bytes i (QInterval [99; 104; 114; 49] 15 101)
+    = AValuesIv (Ok [mkv 15 20 1065353216; mkv 20 30 1073741824; mkv 100 101 1077936128]) /\
+    read_answer idc ex_bytes i (QValues [99; 104; 114; 50] 4 7) = APerBase (Ok [None; Some 1084227584; Some 1084227584]).
+Proof.
+  destruct (read_info ex_bytes) as [i| | |] eqn:E; [|vm_compute in E; discriminate..].
+  exists i. split; [reflexivity|]. vm_compute in E. injection E as <-. repeat split; vm_compute; reflexivity.
+Qed.
+
+(* the main index of that file as a node store offset -> node: the root's first child sits at a
+   HIGHER offset than its second child and than the root itself *)
+Definition ex_root : N := 307.
+Definition ex_store : store :=
+  Eval vm_compute in
+    (let nd o := match read_node true ex_bytes o with Ok n => n | _ => PLeaf [] end in
+     map (fun o => (o, nd o)) (ex_root :: match nd ex_root with PInner its => map snd its | _ => [] end)).
+Example C10_example_store :
+  (forall o n, st_find o ex_store = Some n -> read_node true ex_bytes o = Ok n)
+  /\ (exists ls, st_leaves ex_store 2 ex_root = Some ls /\ length ls = 3%nat)
+  /\ st_cov ex_store 2 ex_root
+  /\ (exists sp1 o1 sp2 o2, st_find ex_root ex_store = Some (PInner [(sp1, o1); (sp2, o2)]) /\ o2 < ex_root < o1).
+Proof.
+  split; [|split; [|split]].
+  - intros o n. unfold ex_store. cbn [st_find].
+    repeat match goal with |- context [o =? ?k] => destruct (N.eqb_spec o k); [subst o; intros H; injection H as <-; vm_compute; reflexivity|] end.
+    discriminate.
+  - eexists. split; [vm_compute; reflexivity|reflexivity].
+  - unfold st_cov. cbn [gcov]. unfold ex_store, st_get. cbn [st_find]. cbn.
+    repeat constructor; try (intros ls H; injection H as <-; repeat constructor;
+      apply inside_covers; unfold inside, ple; cbn; lia).
+  - do 4 eexists. split; [vm_compute; reflexivity|vm_compute; split; reflexivity].
+Qed.
